@@ -11,6 +11,7 @@ import hashlib, json, os, random, shutil, sys, tempfile, time, traceback
 VERIF = os.path.dirname(os.path.dirname(os.path.abspath(__file__)))
 REPO = os.environ.get("PVL_REPO", "/repo")
 FINDINGS_FILE = os.path.join(VERIF, "known_findings.json")
+OUT = os.environ.get("VERIF_OUT", VERIF)          # where evidence/ and replays/ are written (default: /verif)
 
 
 def import_pvl():
@@ -143,7 +144,7 @@ class Report:
         by_sig = {}
         for sig, case, detail in violations:
             by_sig.setdefault(json.dumps(sig, sort_keys=True), []).append((case, detail))
-        rdir = os.path.join(VERIF, "replays", prop)
+        rdir = os.path.join(OUT, "replays", prop)
         n = 0
         for sk, lst in sorted(by_sig.items(), key=lambda kv: -len(kv[1])):
             n += 1
@@ -176,8 +177,8 @@ class Report:
         ev = {"property_id": prop, "tier": ctx.tier, "seed": ctx.seed, "level": self.level,
               "coverage": cov, "assumptions": self.assumptions, "wall_s": round(wall, 2),
               "violations": len(by_sig)}
-        os.makedirs(os.path.join(VERIF, "evidence"), exist_ok=True)
-        with open(os.path.join(VERIF, "evidence", prop + ".json"), "w") as f:
+        os.makedirs(os.path.join(OUT, "evidence"), exist_ok=True)
+        with open(os.path.join(OUT, "evidence", prop + ".json"), "w") as f:
             json.dump(ev, f, indent=1, default=str)
         print("%s %s: %d cases, %d TLC states, %d traces validated, %d known-finding class(es), "
               "%d violation class(es), %.1fs" % (prop, ctx.tier, self.evaluations, self.states,
